@@ -129,6 +129,16 @@ Section Server.
     end.
 End Server.
 
+(* fn unserialisable_fallback (commit 35946be): the reply sent when the real one cannot be
+   serialised -- the same message with the three record sections cleared,
+   is_authoritative = false and rcode = ServerFailure; id, QR, opcode, TC, RD, RA and the
+   question section stay as they are *)
+Definition unserialisable_fallback (m : message) : message :=
+  set_rcode RCODE_ServerFailure
+    (set_aa false
+       {| m_header := m_header m; m_questions := m_questions m;
+          m_answers := []; m_authority := []; m_additional := [] |}).
+
 (* ------------------------------------------------------------------ *)
 (* util/net.rs: framing                                                *)
 (* ------------------------------------------------------------------ *)
@@ -217,7 +227,10 @@ Section Listen.
   Variable resolve : bool -> question -> res rerror resolved.
 
   (* `message.to_octets()` then the framing function; a message that cannot be
-     serialised is logged ("could not serialise message") and NOTHING is sent *)
+     serialised is logged ("could not serialise message") and its
+     [unserialisable_fallback] is serialised and sent the same way instead
+     (`if let Ok(..) = unserialisable_fallback(&message).to_octets()`: were that to
+     fail as well, nothing would be sent) *)
   Definition frame_with (send : list byte -> res unit (list byte)) (o : option message)
     : res unit (option (list byte)) :=
     match o with
@@ -225,7 +238,13 @@ Section Listen.
     | Some m =>
       match encode m with
       | Ok bs => let* out := send bs in Ok (Some out)
-      | Err _ => Ok None
+      | Err _ =>
+        match encode (unserialisable_fallback m) with
+        | Ok bs => let* out := send bs in Ok (Some out)
+        | Err _ => Ok None
+        | Panic => Panic
+        | OutOfFuel => OutOfFuel
+        end
       | Panic => Panic
       | OutOfFuel => OutOfFuel
       end
@@ -256,7 +275,8 @@ Section Listen.
     frame_with send_tcp_bytes r.
 End Listen.
 
-(* a reply was built but `to_octets` fails (CounterTooLarge): it is dropped *)
+(* a reply was built but `to_octets` fails (CounterTooLarge): its fallback is sent (used by
+   the model driver to label such cases) *)
 Definition reply_unserialisable (o : option message) : bool :=
   match o with
   | Some m => match encode m with Err _ => true | _ => false end
